@@ -12,7 +12,9 @@
    props/C05.v, C11.v); add_local_input / advance_frame / arriving inputs / gossip in ANY interleaving.
    Predictors: any function with predict (predict x) = predict x and predict 0 = 0 - both shipped
    predictors (C01_predictors_qualify); see DESIGN.md for what happens without idempotence. *)
-From GGRS Require Import Base Consts Queue QueueProofs Sync P2P Session SessionProofs SessionSparse SessionProgress SessionSparse2 SessionTimeline SessionTimelineSparse SessionSystem.
+From GGRS Require Import Base Consts Queue QueueProofs Sync P2P Session SessionProofs SessionSparse SessionProgress SessionSparse2 SessionTimeline SessionTimelineSparse SessionSystem SystemGlue.
+From GGRS Require Endpoint EndpointEvents.
+From Coq Require Import Lia.
 Open Scope Z_scope.
 
 (* After ANY run inside the space, however predictions, mispredictions, rollbacks, stalls at the
@@ -148,6 +150,37 @@ Theorem C01_two_sessions_agree :
         gvalL (g_hist gA) f (Z.to_nat h) = gvalL (g_hist gB) f (Z.to_nat h).
 Proof. exact two_sessions_agree. Qed.
 
+(* The link contract from the endpoint theorems (coq/SystemGlue.v).  The session-core model and the endpoint model
+   share no datatype; the two identities that join them are hypotheses here, everything between them is proved:
+   [sender_fed]: every frame the sending endpoint was handed is a round of A's session serialised by send_input;
+   [receiver_reads]: every SRemote operation of B's session is an Input event justified by the stream - which is what
+   props/C05.v proves of every event the receiving endpoint hands out (C05_events_were_sent,
+   C05_poll_hands_out_what_was_sent); [rounds_shaped]: every round names exactly the receiver's player handles [hs]
+   with a real frame number and u32 values.  Then the link's integrity contract holds ... *)
+Theorem C01_link_contract_from_endpoints : forall np hs outsA sent opsB h,
+  hs <> [] -> sender_fed np outsA sent -> rounds_shaped np hs outsA -> receiver_reads hs sent opsB h ->
+  delivered_was_sent h outsA opsB.
+Proof. exact link_contract_from_endpoints. Qed.
+
+(* ... and two peers agree, with no hypothesis above the two glue identities *)
+Theorem C01_two_peers_agree_through_endpoints :
+  forall (np : Z) (hs : list Z) (predict : Z -> Z), (forall x, predict (predict x) = predict x) -> predict 0 = 0 ->
+  forall (sparseA sparseB : bool) (opsA opsB : list sop) (wA wB dA dB : Z) (kindsA kindsB : list pkind)
+         (epsA epsB : list (list Z)) (nspecA nspecB : nat) (pA pB : p2p) (outsA outsB : list (pout * apires))
+         (sent : list Endpoint.ibytes),
+  mode_ok sparseA wA dA -> 0 <= dA -> mode_ok sparseB wB dB -> 0 <= dB ->
+  0 < np -> Z.of_nat (length kindsA) = np -> Z.of_nat (length kindsB) = np -> players_only kindsA -> players_only kindsB ->
+  srun_in predict (session_start np wA sparseA dA kindsA epsA nspecA) opsA = Ok (pA, outsA) ->
+  srun_in predict (session_start np wB sparseB dB kindsB epsB nspecB) opsB = Ok (pB, outsB) ->
+  hs <> [] -> sender_fed np outsA sent -> rounds_shaped np hs outsA ->
+  exists gA gB, exec_outs wA (game0 wA) outsA = Some gA /\ exec_outs wB (game0 wB) outsB = Some gB /\
+    forall h e, 0 <= h -> nth_error kindsA (Z.to_nat h) = Some KLocal -> nth_error kindsB (Z.to_nat h) = Some (KRemote e) ->
+      receiver_reads hs sent opsB h ->
+      forall f, 0 <= f <= s_last_confirmed (ps_sync pA) -> f < s_current (ps_sync pA) ->
+                0 <= f <= s_last_confirmed (ps_sync pB) -> f < s_current (ps_sync pB) ->
+        gvalL (g_hist gA) f (Z.to_nat h) = gvalL (g_hist gB) f (Z.to_nat h).
+Proof. exact two_peers_agree_through_endpoints. Qed.
+
 (* non-vacuity: peer A (player 0 local, input delay 1) and peer B (player 0 remote); B receives exactly what A's
    rounds carry (B saves sparsely, so its confirmed frame lags: 0 against A's 1); both simulated frames 0 and 1
    with A's delayed inputs 0 (the delay), 5 *)
@@ -278,3 +311,34 @@ Theorem C01_idempotent_predictor_needed_refuted :
     hval (nth 2 (map (fun o => match o with SRemote 1 _ v => v | _ => 0 end)
                      (filter (fun o => match o with SRemote 1 _ _ => true | _ => false end) c01_inc_ops)) 0 :: nil) 0 = 2.  (* its real input *)
 Proof. eexists. eexists. eexists. split; [vm_compute; reflexivity|]. split; [vm_compute; reflexivity|]. split; [vm_compute; reflexivity|]. split; vm_compute; reflexivity. Qed.
+
+
+(* non-vacuity of the glue hypotheses: the rounds of the run c01_sysA (player 0, delay 1), serialised as send_input
+   serialises them (4 little-endian bytes per player), and the remote-input operations of c01_sysB *)
+Definition c01_glue_outs : list (pout * apires) :=
+  match srun_in (fun x => x) (session_start 2 3 false 1 [KLocal; KRemote 0] [[1]] 0) c01_sysA with Ok (_, o) => o | _ => [] end.
+Definition c01_glue_sent : list Endpoint.ibytes :=
+  [(0, [0; 0; 0; 0]%N); (1, [5; 0; 0; 0]%N); (2, [6; 0; 0; 0]%N); (3, [7; 0; 0; 0]%N)].
+Lemma c01_glue_rounds : all_sends c01_glue_outs =
+  [[(0, mkpi 0 0)]; [(0, mkpi 1 5)]; [(0, mkpi 2 6)]; [(0, mkpi 3 7)]].
+Proof. vm_compute. reflexivity. Qed.
+Example C01_glue_demo :
+  sender_fed 2 c01_glue_outs c01_glue_sent /\ rounds_shaped 2 [0] c01_glue_outs /\ receiver_reads [0] c01_glue_sent c01_sysB 0.
+Proof.
+  split; [|split].
+  - intros k b Hin. rewrite c01_glue_rounds. unfold c01_glue_sent in Hin. cbn [In] in Hin.
+    destruct Hin as [X|[X|[X|[X|[]]]]]; injection X as <- <-.
+    + exists [(0, mkpi 0 0)]. split; [left; reflexivity|vm_compute; reflexivity].
+    + exists [(0, mkpi 1 5)]. split; [right; left; reflexivity|vm_compute; reflexivity].
+    + exists [(0, mkpi 2 6)]. split; [right; right; left; reflexivity|vm_compute; reflexivity].
+    + exists [(0, mkpi 3 7)]. split; [right; right; right; left; reflexivity|vm_compute; reflexivity].
+  - intros m Hin. rewrite c01_glue_rounds in Hin. cbn [In] in Hin.
+    destruct Hin as [<-|[<-|[<-|[<-|[]]]]]; (split; [vm_compute; reflexivity|]);
+      (constructor; [|constructor]); cbn [snd pi_frame pi_val]; unfold NULL; lia.
+  - intros f v Hin. unfold c01_sysB in Hin. cbn [In] in Hin.
+    destruct Hin as [X|[X|[X|[X|[X|[X|[X|[X|[X|[]]]]]]]]]]; try discriminate X; injection X as <- <-;
+      cbn [EndpointEvents.ev_justified length].
+    + exists [0; 0; 0; 0]%N, [0], O. split; [left; reflexivity|]. split; [vm_compute; reflexivity|]. split; reflexivity.
+    + exists [5; 0; 0; 0]%N, [5], O. split; [right; left; reflexivity|]. split; [vm_compute; reflexivity|]. split; reflexivity.
+    + exists [6; 0; 0; 0]%N, [6], O. split; [right; right; left; reflexivity|]. split; [vm_compute; reflexivity|]. split; reflexivity.
+Qed.
